@@ -78,8 +78,9 @@ class Peer:
     first connection (cut_at = -1: right after accepting, before any request)."""
 
     def __init__(self, rec: Recorder, tk: str, *, cut_at: int | None, kind: str, cut_delay_ms: int,
-                 restart_ms: int | None, reply: bytes = REPLY) -> None:
+                 restart_ms: int | None, reply: bytes = REPLY, warm: int = 0) -> None:
         self.rec, self.tk, self.cut_at, self.kind = rec, tk, cut_at, kind
+        self.warm = warm  # exchanges answered normally on the first connection before the one that is cut
         self.cut_delay_ms, self.restart_ms, self.reply = cut_delay_ms, restart_ms, reply
         self.listener = Listener()
         self.listener.on_accept = self._accepted
@@ -131,6 +132,11 @@ class Peer:
             stream, complete_at = answer_stream(self.tk, req, self.reply)
             if n == 1 and self.did_cut:
                 continue  # the lost connection stays lost (a silent peer does not answer on it any more)
+            if n == 1 and self.warm > 0:
+                self.warm -= 1
+                if w.feed(stream):
+                    self.rec.add("Msg", d=list(self.reply))
+                continue
             if n == 1 and self.cut_at is not None and not self.did_cut:
                 if self.cut_at >= 0:
                     if w.feed(stream[: self.cut_at]) or self.cut_at == 0:
@@ -200,14 +206,17 @@ async def op(rec: Recorder, name: str, tmo: float | None, coro: Any) -> tuple[st
     return res, val
 
 
-def transport_case(tk: str, cut_at: int, kind: str, tmo: float | None, cut_delay_ms: int) -> dict[str, Any]:
+def transport_case(tk: str, cut_at: int, kind: str, tmo: float | None, cut_delay_ms: int, warm: int = 0) -> dict[str, Any]:
     rec = Recorder()
 
     async def main() -> None:
-        peer = Peer(rec, tk, cut_at=cut_at, kind=kind, cut_delay_ms=cut_delay_ms, restart_ms=None)
+        peer = Peer(rec, tk, cut_at=cut_at, kind=kind, cut_delay_ms=cut_delay_ms, restart_ms=None, warm=warm)
         with patched_connections(peer.listener):
             tr = await transport_class(tk).connect(target(tk))
             await settle()
+            for _ in range(warm):
+                await op(rec, "write", 1.0, tr.write(REQ, timeout=1.0))
+                await op(rec, "read", 1.0, tr.read(timeout=1.0))
             peer.cut_before_request()
             await settle()
             await op(rec, "write", tmo, tr.write(REQ, timeout=tmo))
@@ -229,18 +238,22 @@ def transport_case(tk: str, cut_at: int, kind: str, tmo: float | None, cut_delay
     ev = [e for e in rec.ev if e["e"] != "Note"]
     notes = [e for e in rec.ev if e["e"] == "Note"]
     return {"cfg": {"ackTime": ACK[tk], "retries": 0, "expect": list(REPLY), "window": -1}, "ev": ev, "tk": tk,
-            "cut_at": cut_at, "kind": kind, "tmo": tmo, "cut_delay": cut_delay_ms, "level": "transport", "notes": notes}
+            "cut_at": cut_at, "kind": kind, "tmo": tmo, "cut_delay": cut_delay_ms, "level": "transport", "notes": notes,
+            "warm": warm}
 
 
-def client_case(tk: str, cut_at: int, kind: str, retries: int, restart_ms: int | None, cut_delay_ms: int) -> dict[str, Any]:
+def client_case(tk: str, cut_at: int, kind: str, retries: int, restart_ms: int | None, cut_delay_ms: int,
+                warm: int = 0) -> dict[str, Any]:
     rec = Recorder()
 
     async def main() -> None:
-        peer = Peer(rec, tk, cut_at=cut_at, kind=kind, cut_delay_ms=cut_delay_ms, restart_ms=restart_ms)
+        peer = Peer(rec, tk, cut_at=cut_at, kind=kind, cut_delay_ms=cut_delay_ms, restart_ms=restart_ms, warm=warm)
         with patched_connections(peer.listener):
             tr = await transport_class(tk).connect(target(tk))
             cl = UDSClient(tr, timeout=1.0, max_retry=retries)
             await settle()
+            for _ in range(warm):
+                await op(rec, "request", 1.0, cl.request(service.ReadDataByIdentifierRequest(0x1234)))
             peer.cut_before_request()
             await settle()
             await op(rec, "request", 1.0, cl.request(service.ReadDataByIdentifierRequest(0x1234)))
@@ -261,7 +274,7 @@ def client_case(tk: str, cut_at: int, kind: str, retries: int, restart_ms: int |
     window = WINDOW[tk] if kind in ("EOF", "Reset") else -1
     return {"cfg": {"ackTime": ACK[tk], "retries": retries, "expect": list(REPLY), "window": window}, "ev": ev,
             "tk": tk, "cut_at": cut_at, "kind": kind, "retries": retries, "restart": restart_ms,
-            "cut_delay": cut_delay_ms, "level": "client", "notes": notes}
+            "cut_delay": cut_delay_ms, "level": "client", "notes": notes, "warm": warm}
 
 
 def validate(traces: list[dict[str, Any]]) -> tuple[dict[int, tuple[str, int]], list[Any]]:
@@ -312,7 +325,7 @@ def run(tier: str, seed: int) -> Report:
     seen: set[str] = set()
 
     def add(t: dict[str, Any]) -> None:
-        key = json.dumps([t["tk"], t["cfg"], t["cut_at"], t["kind"], t.get("cut_delay"), t.get("restart"), t["ev"]])
+        key = json.dumps([t["tk"], t["cfg"], t["cut_at"], t["kind"], t.get("cut_delay"), t.get("restart"), t.get("warm"), t["ev"]])
         if key in seen:
             return
         seen.add(key)
@@ -326,22 +339,29 @@ def run(tier: str, seed: int) -> Report:
                 for tmo in (1.0, None):
                     if tmo is None and kind == "Silence" and tk in ("tcp-lines", "unix-lines"):
                         continue
-                    for delay in ((0, 100) if tier == "thorough" or k % 3 == 0 or k <= 1 else (0,)):
+                    delays = (0, 50, 100, 900, 1100) if tier == "thorough" else ((0, 100) if k % 3 == 0 or k <= 1 else (0,))
+                    for delay in delays:
                         if tmo is None and kind == "Silence":
                             # only the write is bounded by the protocol; the reads would block by specification
                             continue
                         add(transport_case(tk, k, kind, tmo, delay))
+                        if (tier == "thorough" and delay in (0, 100)) or (k % 4 == 0 and delay == 0):
+                            add(transport_case(tk, k, kind, tmo, delay, warm=1))  # loss in the SECOND exchange
         # client level
         step = 1 if tier == "thorough" else 3
         for k in [-1] + list(range(0, total + 1, step)) + [total]:
             for kind in KINDS:
                 for R in (0, 1, 2):
-                    for restart in (0, 100, 3000, None):
+                    for restart in ((0, 50, 100, 150, 250, 1000, 3000, 9000, 11000, None) if tier == "thorough"
+                                    else (0, 100, 3000, None)):
                         if kind == "Silence" and restart not in (0,):
                             continue
                         add(client_case(tk, k, kind, R, restart, 0))
                         if tier == "thorough":
                             add(client_case(tk, k, kind, R, restart, 100))
+                            add(client_case(tk, k, kind, R, restart, 0, warm=1))
+                        elif k % 6 == 0 and restart in (0, None):
+                            add(client_case(tk, k, kind, R, restart, 0, warm=1))
     verdicts, results = validate(traces)
     for r in results:
         rep.add_tlc(r, "Trace_Loss batch")
